@@ -95,7 +95,7 @@ func stReplay(raw json.RawMessage, idx int, tr *traceWriter) {
 	if opt%2 == 0 {
 		so.SetETag = true
 	}
-	if opt%3 == 0 {
+	if opt%3 != 1 {
 		so.Expires = func() string { return "Thu, 01 Jan 2099 00:00:00 GMT" }
 	}
 	if opt%5 == 0 {
@@ -104,9 +104,13 @@ func stReplay(raw json.RawMessage, idx int, tr *traceWriter) {
 	f := flamego.NewWithLogger(io.Discard)
 	f.Use(flamego.Static(so))
 	nextRan, writtenAtNext := false, false
+	leaked := []string{}
 	f.NotFound(func(c flamego.Context) {
 		nextRan = true
 		writtenAtNext = c.ResponseWriter().Written()
+		for k := range c.ResponseWriter().Header() {
+			leaked = append(leaked, k) // whatever Static left in the header map of a response it did not serve
+		}
 		c.ResponseWriter().WriteHeader(404)
 	})
 	parts := make([]string, len(c.Segs))
@@ -159,7 +163,7 @@ func stReplay(raw json.RawMessage, idx int, tr *traceWriter) {
 		}
 	}
 	tr.emit(map[string]interface{}{"ev": "static", "method": c.Method, "segs": c.Segs, "prefix": c.Prefix, "kind": kind, "id": id,
-		"loc": loc, "written": written && !(nextRan && !writtenAtNext), "next_ran": nextRan, "panicked": panicked, "status": w.Code})
+		"loc": loc, "written": written && !(nextRan && !writtenAtNext), "next_ran": nextRan, "leaked": len(leaked), "panicked": panicked, "status": w.Code})
 }
 
 var stHostile = []string{"f", "d", "e", "x", "x", "g", "index", "pfx", "pfxx", "pfxf", "pfxd", "pfxe", "pfx.", "secret", "..", ".", "", "...", "%2e%2e", "..\\secret", "\x00", "f\x00", "d\x00",
